@@ -45,7 +45,7 @@ def unique_names(prog, used=None):
   ops = []
   for op in prog['ops']:
     op = dict(op)
-    if op['op'] in ('param', 'counter', 'stat'):
+    if op['op'] in ('param', 'counter', 'stat', 'sow'):
       n = op['name']
       while n in used:
         n = n + 'u'
@@ -71,6 +71,12 @@ def wrapper_state(w):
       continue
     col = variablelib.variable_name_from_type(v.type)
     node = out.setdefault(col, {})
+    if isinstance(p[-1], int):
+      # element of a tuple stored under one name (what `sow` keeps)
+      for k in p[:-2]:
+        node = node.setdefault(k, {})
+      node[p[-2]] = tuple(node.get(p[-2], ())) + (v.value,)
+      continue
     for k in p[:-1]:
       node = node.setdefault(k, {})
     node[p[-1]] = v.value
@@ -79,22 +85,27 @@ def wrapper_state(w):
 
 def tonnx_case():
   return st.tuples(
-      L.case_strategy(allow=('counter', 'stat', 'tanh', 'rng'), max_depth=2,
-                      max_ops=4, styles=('compact',)),
+      L.case_strategy(allow=('counter', 'stat', 'tanh', 'rng', 'sow'),
+                      max_depth=2, max_ops=4, styles=('compact',)),
       st.integers(1, 3), st.lists(st.sampled_from(['counters', 'batch_stats',
-                                                   'cache']), max_size=2,
+                                                   'cache', 'intermediates',
+                                                   'aux']), max_size=2,
                                   unique=True),
       st.booleans(),
       # rngs handed over at call time (fresh nnx.Rngs per call) instead of
       # the streams the wrapper was constructed with
+      st.booleans(),
+      # a second lazy_init that raises (required argument missing) and is
+      # caught by the caller, between the successful one and the calls
       st.booleans())
 
 
 @clause('to_nnx', strategy=tonnx_case, quick=200, thorough=8000,
         quick_shards=10, thorough_shards=16, shrink=False,
         rule='generated Linen programs (Dense/param/counter/running-stat/rng '
-        'draws, nested) wrapped with bridge.ToNNX, optionally nested inside an '
-        'NNX parent, lazily initialised and called 1-3 times with a mutable '
+        'draws/sow, nested) wrapped with bridge.ToNNX, optionally nested inside an '
+        'NNX parent, lazily initialised (optionally followed by a lazy_init '
+        'that raises and is caught) and called 1-3 times with a mutable '
         'filter, drawing from the wrapper\'s own streams or from fresh '
         'nnx.Rngs passed at call time: after lazy_init every collection is stored under the NNX '
         'Variable type registered for its name with the values of an '
@@ -104,6 +115,7 @@ def tonnx_case():
 def to_nnx(case, ctx):
   case, ncalls, mutable, nested, *rest = case
   call_time_rngs = bool(rest and rest[0])
+  failed_init = bool(len(rest) > 1 and rest[1])
   case = L.normalize_case(dict(case, shared=[]))
   case = dict(case, prog=unique_names(case['prog']))
   # rng ops need explicit streams
@@ -143,9 +155,24 @@ def to_nnx(case, ctx):
     require(variablelib.variable_type_from_name(col) is v.type,
             f'{p}: type {v.type} is not the registered type of {col!r}')
   mutable = [c for c in mutable]
+  if failed_init:
+    try:
+      bridge.lazy_init(holder if nested else w)
+    except TypeError:
+      pass
+    # nothing was initialised: the wrapper still holds the same variables
+    got2 = wrapper_state(w)
+    require(set(got2) == set(got) and all(
+        close(L.flat(got2[c]), L.flat(got[c])) for c in got), 'a lazy_init '
+            'that raised changed the variables held by the wrapper')
   for i in range(ncalls):
     call_rngs = {'params': k(seed, i + 1), 'dropout': k(seed + 1, i + 1),
                  'noise': k(seed + 2, i + 1)}
+    if failed_init:
+      # whether the failed attempt consumed keys is not part of the
+      # statement: the call draws the next key of each stream
+      call_rngs = {n: k(seed + j, int(rngs[n].count.value))
+                   for j, n in enumerate(['params', 'dropout', 'noise'])}
     kw = {}
     if call_time_rngs:
       s2 = seed + 1000 * (i + 1)
@@ -165,7 +192,9 @@ def to_nnx(case, ctx):
     require(close(y, y_ref * 2.0 if nested else y_ref), lambda: f'call {i}: '
             'wrapper output differs from Linen apply on the held variables'
             + (' with the keys of the rngs passed at call time'
-               if call_time_rngs else ''))
+               if call_time_rngs else '')
+            + (' (after a lazy_init that raised and was caught)'
+               if failed_init else ''))
     got = wrapper_state(w)
     for col in V:
       if not L.flat(V[col]):
@@ -179,7 +208,9 @@ def to_nnx(case, ctx):
   ctx.note(labels=['nested' if nested else 'flat', f'calls{ncalls}',
                    'mutable' if mutable else 'immutable',
                    'call-rngs' if call_time_rngs else 'wrapper-rngs',
-                   'draws' if draws else 'nodraws'],
+                   'draws' if draws else 'nodraws',
+                   'sow' if L.uses(case['prog'], ('sow',)) else 'nosow',
+                   'failed-init' if failed_init else 'clean-init'],
            nontrivial=stateful and ncalls >= 2 and bool(mutable))
 
 
@@ -390,7 +421,7 @@ def to_linen(case, ctx):
 
 # ----------------------------------------------------------------------------
 def conv_case():
-  leaf = st.tuples(st.sampled_from(['plain', 'partitioned']),
+  leaf = st.tuples(st.sampled_from(['plain', 'partitioned', 'logical']),
                    st.lists(st.integers(1, 3), min_size=1, max_size=2),
                    st.integers(0, 99))
   layer = st.dictionaries(st.sampled_from(['kernel', 'bias', 'scale', 'v']),
@@ -407,7 +438,7 @@ def conv_case():
 @clause('conversions', strategy=conv_case, quick=400, thorough=20000,
         quick_shards=4, shrink=False,
         rule='random Linen variable dicts (1-3 collections incl. a fresh '
-        'name, plain arrays and nn.Partitioned boxes, disjoint layer names per '
+        'name, plain arrays, nn.Partitioned and nn.LogicallyPartitioned boxes, disjoint layer names per '
         'collection): nnx_attrs_to_linen_vars(linen_vars_to_nnx_attrs(v)) == v '
         'incl. box type and axis names <-> sharding metadata; variable_type_'
         'from_name / variable_name_from_type are mutually inverse on '
@@ -432,16 +463,26 @@ def conversions(case, ctx):
                           for i in range(len(shape)))
             a = nn.Partitioned(a, names=names)
             has_part = True
+          elif kind == 'logical':
+            names = tuple(['batch', 'embed', None][i % 3]
+                          for i in range(len(shape)))
+            a = nn.LogicallyPartitioned(
+                a, names=names,
+                rules=(('batch', 'data'),) if seed % 2 else None)
+            has_part = True
           V[col][ln][vname] = a
-    boxes = [(b, tuple(b.names)) for b in jax.tree_util.tree_leaves(
+    boxes = [(b, (tuple(b.names), getattr(b, 'rules', None)))
+             for b in jax.tree_util.tree_leaves(
         V, is_leaf=lambda z: isinstance(z, nn.Partitioned))
              if isinstance(b, nn.Partitioned)]
     with sut('linen_vars_to_nnx_attrs'):
       attrs = bv.linen_vars_to_nnx_attrs(V)
     for b, names in boxes:
-      require(getattr(b, 'names', None) == names, lambda: 'converting to NNX '
-              f'attributes modified the caller\'s Partitioned box (names '
-              f'{names} -> {getattr(b, "names", "<missing>")})')
+      require((getattr(b, 'names', None), getattr(b, 'rules', None)) == names,
+              lambda: 'converting to NNX '
+              f'attributes modified the caller\'s {type(b).__name__} box '
+              f'(names, rules {names} -> {getattr(b, "names", "<missing>")}, '
+              f'{getattr(b, "rules", "<missing>")})')
     for col in V:
       for ln in V[col]:
         for vname, orig in V[col][ln].items():
@@ -474,6 +515,9 @@ def conversions(case, ctx):
         require(tuple(w.names) == tuple(v.names) and np.array_equal(
             np.asarray(w.value), np.asarray(v.value)),
                 f'{p}: Partitioned names/value changed')
+        require(getattr(w, 'rules', None) == getattr(v, 'rules', None),
+                lambda: f'{p}: LogicallyPartitioned rules {v.rules} -> '
+                f'{getattr(w, "rules", None)}')
       else:
         require(np.array_equal(np.asarray(w), np.asarray(v)),
                 f'{p}: value changed')
